@@ -202,6 +202,20 @@ def result_to_dict(r):
     return {k: v for k, v in r.__dict__.items()}
 
 
+def require_return_arity(ex, quals, n):
+    """A parent-side contract that takes a worker BY ITS INTERFACE ('returns an n-tuple per task') is only meaningful while the
+    real worker has that interface: a worker whose return statements are not n-tuples (an internal interface changed on both
+    sides) leaves the task undecided instead of judging the parent against a contract its worker no longer has."""
+    import ast
+    for q in quals:
+        r = ex.repo.func(q)
+        if r is None:
+            raise Unsupported(f"worker {q} is not in this tree: the parent cannot be judged against its interface")
+        rets = [x for x in ast.walk(r[0]) if isinstance(x, ast.Return)]
+        if not rets or not all(isinstance(x.value, ast.Tuple) and len(x.value.elts) == n for x in rets):
+            raise Unsupported(f"worker {q} no longer returns {n} values per task: the interface this contract assumes has changed")
+
+
 class FrameView(dict):
     """the variables of a fragment's frame as its post-condition sees them: asking (without a default) for a local the code
     does not define - the contract was written for a local of that name, the code at hand calls it otherwise - leaves the
